@@ -219,7 +219,11 @@ def replay(name, inp):
         ok = list(r.bins) == list(exp) and all(np.array_equal(r.bins[k], exp[k]) for k in exp) \
             and r.value.shape == tuple(d for d in dims if d != 1) and np.array_equal(r.value, value.squeeze())
         return {'reproduced': not ok, 'observed': {k: v.tolist() for k, v in r.bins.items()}, 'expected': {k: v.tolist() for k, v in exp.items()}}
-    sl = tuple(slice(a, b) for a, b in inp['slices'])
+    # the same limits written another way select the same cells: numpy integers (limits computed with argmax / searchsorted), an explicit unit step
+    how = inp.get('limits_written_as', 'int')
+    conv = {'int': lambda x: x, 'np.int64': lambda x: None if x is None else np.int64(x), 'np.int32': lambda x: None if x is None else np.int32(x),
+            'np.intp': lambda x: None if x is None else np.intp(x), 'explicit unit step': lambda x: x}[how]
+    sl = tuple(slice(conv(a), conv(b), 1 if how == 'explicit unit step' else None) for a, b in inp['slices'])
     index = sl if inp.get('tuple_index', True) else sl[0]
     v0, b0 = value.copy(), {k: v.copy() for k, v in bins.items()}
     try:
@@ -262,12 +266,24 @@ def bounded(tier, seed):
                     if r['reproduced']:
                         fails.append({'input': inp, 'observed': r['observed'], 'expected': r['expected']})
     samples.append({'ndim': 1, 'dims': [3], 'nbins': [4], 'slices': [[-2, None]]})
+    for how in ('np.int64', 'np.int32', 'np.intp', 'explicit unit step'):
+        for nd in (1, 3):
+            for edges in (True, False):
+                for a in vals:
+                    for b in vals:
+                        for tup in (False, True):
+                            inp = {'ndim': 1, 'dims': [nd], 'nbins': [nd + 1 if edges else nd], 'slices': [[a, b]], 'tuple_index': tup, 'limits_written_as': how}
+                            r = replay('bounded', inp)
+                            n += 1
+                            distinct.add((nd, edges, a, b, tup, how))
+                            if r['reproduced'] and len(fails) < 40:
+                                fails.append({'input': inp, 'observed': r['observed'], 'expected': r['expected']})
     count2 = 400 if tier == 'quick' else 4000
     for _ in range(count2):
         dims = [rng.choice((1, 2, 3)), rng.choice((1, 2))]
         nb = [d + rng.choice((0, 1)) for d in dims]
         sl = [[rng.choice(vals), rng.choice(vals)] for _ in dims]
-        inp = {'ndim': 2, 'dims': dims, 'nbins': nb, 'slices': sl, 'tuple_index': True}
+        inp = {'ndim': 2, 'dims': dims, 'nbins': nb, 'slices': sl, 'tuple_index': True, 'limits_written_as': rng.choice(('int', 'int', 'np.int64', 'explicit unit step'))}
         r = replay('bounded', inp)
         n += 1
         distinct.add((tuple(dims), tuple(nb), tuple(map(tuple, sl))))
@@ -284,7 +300,7 @@ def bounded(tier, seed):
                 if r['reproduced']:
                     fails.append({'input': inp, 'observed': r['observed'], 'expected': r['expected']})
     samples.append({'ndim': 2, 'dims': [1, 3], 'nbins': [2, 3], 'op': 'squeeze'})
-    return {'name': 'slicing-and-squeeze-native', 'bound': '1-d: n<=3, start/stop in {None,-5..5}, edges|centres (exhaustive); '
+    return {'name': 'slicing-and-squeeze-native', 'bound': '1-d: n<=3, start/stop in {None,-5..5}, edges|centres (exhaustive), also with the limits written as numpy integers (int64 / int32 / intp) and with an explicit unit step; '
             f'2-d: {count2} seeded samples; squeeze: all shapes of rank<=3 with dims in 1..3 (exhaustive)',
             'evaluations': n, 'distinct': len(distinct), 'failures': fails[:20], 'samples': samples}
 
